@@ -92,7 +92,8 @@ theorem rerun_paused_noop (w : World) (t : Nat) (x : Task) (wf : Wf) (reset skip
 /-- Engine: a workflow that succeeded cannot be set RUNNING again: the command raises the declared
     WorkflowException and changes nothing (regenerated transition table). -/
 theorem rerun_succeeded_wf_rejected (w : World) (t : Nat) (x : Task) (wf : Wf) (reset skip : Bool)
-    (hx : w.tasks[t]? = some x) (hwf : w.wfs[x.wf]? = some wf) (hs : wf.state = .SUCCESS) :
+    (hx : w.tasks[t]? = some x) (hwf : w.wfs[x.wf]? = some wf) (hs : wf.state = .SUCCESS)
+    (hne : x.state ≠ .SUCCESS) :
     rerunOp w t reset skip = .error (.invalidWfTransition x.wf) := by
   have hlen : 0 < w.wfs.length := by
     have := (List.getElem?_eq_some_iff.mp hwf).1
@@ -104,48 +105,63 @@ theorem rerun_succeeded_wf_rejected (w : World) (t : Nat) (x : Task) (wf : Wf) (
     rw [hc, List.find?_cons]
     have : canRun St.SUCCESS = false := by decide
     simp [hwf, hs, this]
+  have hne' : (x.state == St.SUCCESS) = false := by simpa using hne
   unfold rerunOp
-  simp [hx, hwf, hs, hr]
+  simp [hx, hwf, hs, hr, hne']
 
-/-- What the engine by itself allows: the engine-side guard is weaker than the statement.  A task
-    that is *not* in ERROR can be "rerun" through the engine API: the command succeeds and changes
-    the execution (here: a SUCCESS task of a failed workflow; the workflow is set RUNNING before
-    `_run_existing` refuses the task, and stays RUNNING). -/
+/-- Engine: "tasks that already succeeded cannot be rerun or skipped": the command itself refuses a
+    SUCCESS task (MistralError 'Rerunning succeeded tasks is not supported') before the workflow is
+    touched: the result is the error, there is no new world, nothing changes (fix e3353c67; before
+    it the workflow chain was set RUNNING and committed first). -/
+theorem succeeded_task_refused_unchanged (w : World) (t : Nat) (x : Task) (wf : Wf) (reset skip : Bool)
+    (hx : w.tasks[t]? = some x) (hwf : w.wfs[x.wf]? = some wf) (hs : x.state = .SUCCESS) :
+    rerunOp w t reset skip = .ok w ∨ rerunOp w t reset skip = .error .succeeded := by
+  unfold rerunOp
+  simp only [hx, hwf, hs]
+  by_cases hp : wf.state = .PAUSED
+  · left; simp [hp]
+  · right
+    have : (wf.state == St.PAUSED) = false := by simpa using hp
+    simp [this]
+
+example : rerunOp { wfs := [{ state := .ERROR }], tasks := [{ wf := 0, state := .SUCCESS }] } 0 true false
+    = .error .succeeded := by decide
+example : rerunOp { wfs := [{ state := .ERROR }], tasks := [{ wf := 0, state := .SUCCESS }] } 0 true true
+    = .error .succeeded := by decide
+
+/-- What the engine by itself allows: the engine-side guard is still weaker than the statement
+    ("tasks that are not in ERROR ... cannot be rerun"): a CANCELLED task of a cancelled workflow is
+    rerun through the engine API (a supported feature: test_direct_workflow_rerun_cancelled), and so
+    is any other non-SUCCESS task; only the REST guard restricts the command to ERROR tasks. -/
 theorem engine_rejects_non_error_full_fails :
     ¬ (∀ (w : World) (t : Nat) (x : Task) (reset skip : Bool), w.tasks[t]? = some x →
         x.state ≠ .ERROR → (rerunOp w t reset skip = .ok w ∨ ∃ e, rerunOp w t reset skip = .error e)) := by
   intro h
-  rcases h { wfs := [{ state := .ERROR }], tasks := [{ wf := 0, state := .SUCCESS }] } 0
-    { wf := 0, state := .SUCCESS } true false rfl (by decide) with h | ⟨e, h⟩
+  rcases h { wfs := [{ state := .CANCELLED }], tasks := [{ wf := 0, state := .CANCELLED }] } 0
+    { wf := 0, state := .CANCELLED } true false rfl (by decide) with h | ⟨e, h⟩
   · revert h; decide
-  · have hv : rerunOp { wfs := [{ state := .ERROR }], tasks := [{ wf := 0, state := .SUCCESS }] } 0
-        true false = .ok { wfs := [{ state := .RUNNING }], tasks := [{ wf := 0, state := .SUCCESS }],
+  · have hv : rerunOp { wfs := [{ state := .CANCELLED }], tasks := [{ wf := 0, state := .CANCELLED }] } 0
+        true false = .ok { wfs := [{ state := .RUNNING }], tasks := [{ wf := 0, state := .CANCELLED }],
                            starts := [⟨0, true⟩], integrity := [0, 0] } := by decide
     rw [hv] at h
     cases h
 
-/-- ... and a SUCCESS task can be *skipped* through the engine API (it becomes SKIPPED). -/
-theorem engine_skip_non_error_full_fails :
-    ¬ (∀ (w w' : World) (t : Nat) (x : Task), w.tasks[t]? = some x → x.state ≠ .ERROR →
-        rerunOp w t true true = .ok w' → (w'.tasks[t]?).map (·.state) = some x.state) := by
-  intro h
-  have := h { wfs := [{ state := .ERROR }], tasks := [{ wf := 0, state := .SUCCESS }] } _ 0
-    { wf := 0, state := .SUCCESS } rfl (by decide) rfl
-  revert this
-  decide
-
 /-- The restriction that does hold: commands admitted by the REST guard concern ERROR tasks only
-    (`rest_rejects_non_error`), and for those the engine never refuses the task
-    (`rest_guard_implies_engine_start_ok`); on its own the engine refuses exactly: PAUSED workflow
-    (no-op), a chain workflow that cannot become RUNNING (error, nothing changes), SUCCESS task at
-    `start_task` time. -/
+    (`rest_rejects_non_error`); on its own the engine refuses exactly: PAUSED workflow (no-op), a
+    SUCCESS task (error, nothing changes), a chain workflow that cannot become RUNNING (error,
+    nothing changes). -/
 theorem engine_rejects_non_error_partial (w : World) (t : Nat) (x : Task) (wf : Wf) (reset skip : Bool)
     (hx : w.tasks[t]? = some x) (hwf : w.wfs[x.wf]? = some wf)
-    (h : wf.state = .PAUSED ∨ wf.state = .SUCCESS) :
+    (h : wf.state = .PAUSED ∨ wf.state = .SUCCESS ∨ x.state = .SUCCESS) :
     rerunOp w t reset skip = .ok w ∨ ∃ e, rerunOp w t reset skip = .error e := by
-  rcases h with h | h
-  · exact Or.inl (rerun_paused_noop w t x wf reset skip hx hwf h)
-  · exact Or.inr ⟨_, rerun_succeeded_wf_rejected w t x wf reset skip hx hwf h⟩
+  by_cases hsx : x.state = .SUCCESS
+  · rcases succeeded_task_refused_unchanged w t x wf reset skip hx hwf hsx with h' | h'
+    · exact Or.inl h'
+    · exact Or.inr ⟨_, h'⟩
+  · rcases h with h | h | h
+    · exact Or.inl (rerun_paused_noop w t x wf reset skip hx hwf h)
+    · exact Or.inr ⟨_, rerun_succeeded_wf_rejected w t x wf reset skip hx hwf h hsx⟩
+    · exact absurd h hsx
 
 /-! ## "puts the task, its workflow and all enclosing workflows and parent tasks back to RUNNING" -/
 
@@ -164,6 +180,10 @@ theorem rerunOp_ok (w w' : World) (t : Nat) (x : Task) (wf : Wf) (reset skip : B
   simp only [hx, hwf] at h
   have hp' : (wf.state == St.PAUSED) = false := by simpa using hp
   simp only [hp', Bool.false_eq_true, if_false] at h
+  by_cases hsx : x.state = .SUCCESS
+  · simp [hsx] at h
+  have hsx' : (x.state == St.SUCCESS) = false := by simpa using hsx
+  simp only [hsx', Bool.false_eq_true, if_false] at h
   cases hr : reactivate w x.wf with
   | error e => simp [hr] at h
   | ok w1 =>
@@ -207,14 +227,16 @@ theorem rerun_reactivates_chain (w w' : World) (hw : WellNested w) (t : Nat) (x 
     RUNNING with `processed = False` (so that its follow-ups are computed again when it
     completes), leaving every workflow and every other task as the command left them. -/
 theorem rerun_task_running (w w' : World) (t : Nat) (x : Task) (reset : Bool)
-    (hx : w.tasks[t]? = some x) (hs : x.state ≠ .SUCCESS) (h : startTask w ⟨t, reset⟩ = .ok w') :
+    (hx : w.tasks[t]? = some x) (hs : x.state ≠ .SUCCESS) (hr : x.state ≠ .RUNNING)
+    (h : startTask w ⟨t, reset⟩ = .ok w') :
     (w'.tasks[t]?).map (fun y => (y.state, y.processed)) = some (.RUNNING, false) ∧
     w'.wfs = w.wfs ∧
     (∀ k, k ≠ t → w'.tasks[k]? = w.tasks[k]?) := by
   unfold startTask at h
   simp only [hx] at h
   have : (x.state == St.SUCCESS) = false := by simpa using hs
-  simp only [this, Bool.false_eq_true, if_false] at h
+  have hr' : (x.state == St.RUNNING) = false := by simpa using hr
+  simp only [this, hr', Bool.false_and, Bool.false_eq_true, if_false] at h
   cases h
   refine ⟨?_, rfl, ?_⟩
   · simp [setTask, List.getElem?_mapIdx, hx]
@@ -244,40 +266,34 @@ example : (rerunOp exWorld 2 true false).toOption.map
 
 /-! ## "re-executes the task (all of its items, or only the failed ones when reset is off)" -/
 
-/-- reset on: every item is executed again (every item has a completed execution: the task had
-    ended). -/
+/-- reset on: every item is executed again (the task had ended: every execution completed and
+    every item has one). -/
 theorem rerun_executes_all_items (acts : List Act) (n : Nat)
+    (hall : ∀ a ∈ acts, isCompleted a.state = true)
     (h : ∀ i < n, ∃ a ∈ acts, a.idx = i ∧ isCompleted a.state = true) :
     nextIndexes (resetActs true acts) n none = List.range n :=
-  nextIndexes_all_cand _ n fun i hi => isCand_reset_true acts i (h i hi)
+  nextIndexes_all_cand _ n fun i hi => isCand_reset_true acts i hall (h i hi)
 
 /-- a plain task always gets exactly one new execution -/
 theorem rerun_executes_plain (x : Task) (reset : Bool) (h : x.spec.items = none) :
     newIndexes x reset = [0] := by
   simp [newIndexes, h]
 
-/-- reset off, statement at full strength ("only the failed ones") is FALSE of the code: when a
-    failed item is followed by items that succeeded, `_get_next_indexes` appends
-    `range(max(candidates)+1, count)` without removing the accepted ones, so the succeeded items
-    run again (their new results are accepted on top of the old ones and the task can never
-    complete: accepted executions outnumber `count`). -/
-theorem rerun_executes_only_failed_full_fails :
-    ¬ (∀ (acts : List Act) (n : Nat),
-        (∀ i < n, ∃ a ∈ acts, a.idx = i ∧ isCompleted a.state = true) →
-        nextIndexes (resetActs false acts) n none =
-          (List.range n).filter (isCand (resetActs false acts))) := by
-  intro h
-  have := h [⟨0, .ERROR, true⟩, ⟨1, .SUCCESS, true⟩, ⟨2, .SUCCESS, true⟩] 3 (by decide)
-  revert this
-  decide
-
-/-- the restriction that holds: when the last item is among the failed ones, exactly the items
-    whose executions are all unaccepted after the reset (the failed ones) are executed. -/
-theorem rerun_executes_only_failed_partial (acts : List Act) (n : Nat)
-    (hlast : isCand (resetActs false acts) n = true) :
-    nextIndexes (resetActs false acts) (n + 1) none =
-      (List.range (n + 1)).filter (isCand (resetActs false acts)) :=
-  nextIndexes_last_cand _ n hlast
+/-- reset off: "only the failed ones".  Every item has a completed execution (the task had ended)
+    and at least one item is a candidate (the task is in ERROR): exactly the candidates — the
+    items whose completed executions are all unaccepted after `_reset_actions` — are executed; no
+    item that kept an accepted result runs again (fix 494951d1; before it the items after the last
+    failed one ran again and the task hung). -/
+theorem rerun_executes_only_failed (acts : List Act) (n : Nat)
+    (h : ∀ i < n, ∃ a ∈ acts, a.idx = i ∧ isCompleted a.state = true)
+    (hne : ∃ j < n, isCand (resetActs false acts) j = true) :
+    nextIndexes (resetActs false acts) n none =
+      (List.range n).filter (isCand (resetActs false acts)) := by
+  apply nextIndexes_cands_only _ n _ hne
+  intro i hi
+  obtain ⟨a, ha, hai, hc⟩ := h i hi
+  obtain ⟨a', ha', hi', hs'⟩ := mem_resetActs false acts a ha
+  exact taken_or_cand _ i ⟨a', ha', by rw [hi', hai], by rw [hs', hc]⟩
 
 /-- "failed" = candidate, for a task that ran once to the end (`firstRun outs`): item i is a
     candidate after the no-reset reset exactly when its accepted execution ended in ERROR or
@@ -287,31 +303,28 @@ theorem failed_iff_cand (outs : List St) (i : Nat) (s : St) (hi : outs[i]? = som
     isCand (resetActs false (firstRun outs)) i = failedSt s :=
   isCand_reset_false_firstRun outs i s hi hc
 
-/-- with a concurrency limit the statement "re-executes all of its items" is FALSE of the code: after
-    the first batch of a reset rerun (here: 3 items, capacity 2; new execution of item 0 accepted,
-    new execution of item 1 still RUNNING) `_get_next_indexes` still counts item 1 as a candidate
-    because of its old unaccepted execution, schedules it a second time and never reaches item 2. -/
-theorem rerun_never_reschedules_inflight_full_fails :
-    ¬ (∀ (acts : List Act) (n c : Nat) (i : Nat), i ∈ nextIndexes acts n (some c) →
-        ∀ a ∈ acts, a.idx = i → isRunning a.state = false) := by
-  intro h
-  have := h [⟨0, .ERROR, false⟩, ⟨1, .SUCCESS, false⟩, ⟨2, .SUCCESS, false⟩, ⟨0, .SUCCESS, true⟩,
-             ⟨1, .RUNNING, false⟩] 3 1 1 (by decide) ⟨1, .RUNNING, false⟩ (by decide) rfl
-  revert this
-  decide
+/-- with or without a concurrency limit, in every batch: an item that has an accepted result or an
+    execution in progress is never scheduled again (candidate branch of `_get_next_indexes`: the
+    rerun has items left to redo).  Before fix 494951d1 the second batch of a rerun with a
+    concurrency limit re-scheduled the in-flight item and never reached a later one. -/
+theorem rerun_never_reschedules_inflight (acts : List Act) (n : Nat) (cap : Option Nat) (i : Nat)
+    (hne : ∃ j < n, isCand acts j = true) (hi : i ∈ nextIndexes acts n cap) :
+    ∀ a ∈ acts, a.idx = i → a.accepted = false ∧ isRunning a.state = false ∧ isIdle a.state = false := by
+  have ht := nextIndexes_not_taken acts n cap i hne hi
+  unfold taken at ht
+  rw [List.any_eq_false] at ht
+  intro a ha hai
+  have := ht a ha
+  simp only [hai, beq_self_eq_true, Bool.true_and, Bool.or_eq_true, not_or, Bool.not_eq_true] at this
+  exact ⟨this.1.1, this.1.2, this.2⟩
 
-/-- without a limit there is no second batch: the single batch is the complete list
-    (`rerun_executes_all_items`), so nothing in flight is ever scheduled again. -/
-theorem rerun_never_reschedules_inflight_partial (acts : List Act) (n : Nat)
-    (h : ∀ i < n, ∃ a ∈ acts, a.idx = i ∧ isCompleted a.state = true) :
-    (nextIndexes (resetActs true acts) n none).length = n := by
-  rw [nextIndexes_all_cand _ n fun i hi => isCand_reset_true acts i (h i hi)]
-  simp
-
+-- the former counter-witnesses, now regressions
 example : nextIndexes (resetActs false [⟨0, .SUCCESS, true⟩, ⟨1, .ERROR, true⟩, ⟨2, .ERROR, true⟩]) 3 none
     = [1, 2] := by decide
 example : nextIndexes (resetActs false [⟨0, .ERROR, true⟩, ⟨1, .SUCCESS, true⟩, ⟨2, .SUCCESS, true⟩]) 3 none
-    = [0, 1, 2] := by decide
+    = [0] := by decide
+example : nextIndexes [⟨0, .ERROR, false⟩, ⟨1, .SUCCESS, false⟩, ⟨2, .SUCCESS, false⟩, ⟨0, .SUCCESS, true⟩,
+                       ⟨1, .RUNNING, false⟩] 3 (some 1) = [2] := by decide
 
 /-! ## runtime context (leftover policy state) -/
 
